@@ -100,7 +100,7 @@ theorem monoE_step (hsem : SemOk sem) {base : Expr} (ax : Axis) (t : NodeTest) (
   have ob := ihb c _ he hc hb
   split at hv
   · simp only [bind_ok, pure_ok] at hv
-    obtain ⟨r, hr, rfl⟩ := hv
+    obtain ⟨_, _, r, hr, rfl⟩ := hv
     exact Or.inl (cleanupFwd_strict _)
   · next hcond =>
     simp only [bind_ok, pure_ok] at hv
